@@ -732,6 +732,28 @@ def _outcome(p, term):
     return None
 
 
+def _check_metadata(F, R, co, nm):
+    """"forwards exactly the same multiset of events": an event that was queued is forwarded with the metadata (timestamp)
+    it arrived with — the `at` field of every forwarded Event is data, never the result of a call (`Event::new` = now)."""
+    a = F.adts.get(("cucumber", "event::Event"))
+    names = [f["name"] for f in a["variants"][0]["fields"]] if a else []
+    if "at" not in names:
+        return  # built without the `timestamps` feature: Event carries no metadata
+    ai = names.index("at")
+    D, dp, rows_ = _emit_rows(F, co)
+    ok, n = True, 0
+    for p, acts in rows_:
+        for i, k, e in acts:
+            if k in ("started", "finished", "forward"):
+                for x in D.subterms(e[1][2][1]):
+                    if D.is_variant(x, "event::Event") and ai < len(x[3]):
+                        n += 1
+                        if D.mentions(x[3][ai], lambda y: y[0] == "call" and not re.search(r"current_item$|take_to_emit$|Clone::clone$|Option(::<.*>)?::take$", y[1])) or x[3][ai][0] in ("unknown", "undef"):
+                            ok = False
+    R.check(ok and n >= 1, f"emit/{nm}/metadata-preserved", co, "forwarded events keep the metadata they were queued with",
+            f"the {nm} emitter forwards events with freshly made metadata (Event::new / now) instead of the stored one: timestamps of buffered events collapse to the flush time")
+
+
 def r6(F, R):
     ems = roles.trait_impl_methods(F, r"normalize::Emitter$", "emit")
     R.check(len(ems) == 4, "emit/impls", None, "4 Emitter::emit impls", f"{len(ems)} Emitter::emit implementations (expected 4)")
@@ -740,6 +762,10 @@ def r6(F, R):
         if co is None:
             R.unverifiable("emit/coroutine", f"{b.short} has no coroutine body")
             continue
+        selfty0 = (b.impl.get("self", "") if b.impl else "").replace("&'me mut ", "").replace("&mut ", "")
+        if not "Queue<itertools::Either" in selfty0:
+            _check_metadata(F, R, co, "scenario-events" if selfty0.startswith("writer::normalize::ScenariosQueue") else
+                            "features" if "Queue<event::Source<gherkin::Feature>" in selfty0 else "rule-scenarios")
         selfty = (b.impl.get("self", "") if b.impl else "").replace("&'me mut ", "").replace("&mut ", "")
         if selfty.startswith("writer::normalize::ScenariosQueue"):
             _scenario_emit(F, R, co)
